@@ -9,10 +9,13 @@ Driver requests for a whole run of `cnfgen` / `pbgen` (Cli/Text.lean, Cli/Outcom
       the whole run of the formula sub-command `name`, graph arguments resolved by the deterministic constructions
       (`detEnv`): `OK ok <formula in the class>` | `OK cliError` | `OK escaped:<Exception>` | `OK internalBug` |
       `UNSUPPORTED` (outside the model: random / third-party / file graph arguments, unmapped calls, argparse fragment)
+  cli_line <token…>
+      `cnfgen <tokens>` with `-T` chains (Cli/OutcomeT.lean): `OK ok <cnf>` | `OK cliError` | … | `UNSUPPORTED`
 -/
 import CnfgenModel.Driver.Util
 import CnfgenModel.Cli.Text
 import CnfgenModel.Cli.OutcomeG
+import CnfgenModel.Cli.OutcomeT
 namespace Cnfgen.Driver.CliRun
 open Cnfgen Cnfgen.Driver Cnfgen.Cli Cnfgen.Gen Cnfgen.IO
 
@@ -94,6 +97,25 @@ def handle (opname : String) (a : Args) : Option String :=
           | some (.result (.ok F)), some .ok => pure (ok ("ok " ++ fmtFormula cls F))
           | some _, some o => pure (ok (fmtOutcome o))
           | _, _ => pure "UNSUPPORTED") a
+  | "cli_line" => run (do
+      let line ← listOf str
+      -- every graph argument of the line must be a deterministic specification
+      let detF : Bool := match splitT line with
+        | (name :: fargs) :: tcmds =>
+          (match helpers.find? (fun h => h.kind == "formula" && h.name == name) with
+           | some h => (match Cnfgen.Cli.dispatch h fargs with | .ok c => callDet c | _ => true)
+           | none => true) &&
+          tcmds.all (fun ch => match parseTrans ch with
+            | some (.ok (.call c)) => callDet c
+            | _ => true)
+        | _ => true
+      if !detF then pure "UNSUPPORTED" else
+      match cliLineCNF detEnv oneVertex line, cliOutcomeLine detEnv line with
+      | some (.ok G), some .ok =>
+        if (match splitT line with | (name :: _) :: _ => name == "pitfall" | _ => false) then pure "UNSUPPORTED"
+        else pure (ok ("ok " ++ fmtCNF G))
+      | some (.error _), some o => pure (ok (fmtOutcome o))
+      | _, _ => pure "UNSUPPORTED") a
   | _ => none
 
 end Cnfgen.Driver.CliRun
